@@ -117,10 +117,7 @@ def fv_case(res, enc, consts, parts, error, micro, eci, is_sa, L):
         bt = Batch(res, p.pc)
         if p.status == 'ok':
             r = p.value
-            if isinstance(r, SNum):
-                bt.holds('find_version==ISO-first-fit', label, r.t == want)
-            else:
-                bt.holds('find_version==ISO-first-fit', label, want == int(r))
+            bt.holds('find_version==ISO-first-fit', label, common.int_term(r) == want)
         elif isinstance(p.value, enc.DataOverflowError):
             bt.holds('DataOverflowError-iff-nothing-fits', label, want == 99)
         else:
@@ -214,7 +211,7 @@ def enc_case(res, enc, consts, parts, error, micro, eci, vkind, L, V, calls):
         bt = Batch(res, p.pc)
         if p.status == 'ok':
             code, err_used, ver_used = p.value
-            vu = ver_used.t if isinstance(ver_used, SNum) else z3.IntVal(ver_used)
+            vu = common.int_term(ver_used)
             if vt is None:
                 bt.holds('auto-version==ISO-first-fit', label, vu == guessed)
             else:
